@@ -27,6 +27,17 @@ PROFILES = [
     ('kern_core', {'p_hidden_bar': 0.85, 'min_spines': 2, 'measures': (3, 5), 'p_split': 0.4, 'rows': (1, 2)}),
 ]
 BOUNDARY_FROM = 8   # index of the first boundary profile in PROFILES
+# thorough tier only: more than 256 measures, more than 1000 lines
+PROFILES_THOROUGH = [
+    ('kern_core', {'measures': (257, 266), 'rows': (1, 1), 'max_spines': 1, 'p_split': 0.0, 'p_gcomment': 0.0, 'p_fcomment': 0.0,
+                   'p_tandem': 0.0, 'bar_numbers': 1.0, 'empty_measures': 0.3, 'p_null_run': 0.0, 'p_blank': 0.0, 'p_bbox': 0.0}),
+    ('kern_core', {'measures': (12, 16), 'rows': (70, 90), 'max_spines': 1, 'p_split': 0.0, 'p_gcomment': 0.0, 'p_fcomment': 0.0,
+                   'p_tandem': 0.0, 'p_null_run': 0.0, 'p_blank': 0.0, 'p_chord': 0.0}),
+]
+
+
+def profiles(tier):
+    return PROFILES + (PROFILES_THOROUGH if tier == 'thorough' else [])
 
 
 def sample_pairs(M, rng, limit=70):
